@@ -531,3 +531,30 @@ from manifest_meta import _ADD as _LATER
 for _k, _v in _LATER.items():
     if _k != 'C09':   # C09's rule text above already describes them
         CHECKS[_k]['rule'] = CHECKS[_k]['rule'] + ' ' + _v
+
+# ---------------------------------------------------------------- coverage-guided tier (thorough only)
+# The same harness modes, generators and oracles, compiled with -DVERIF_FUZZ against the clang libFuzzer+ASan+UBSan
+# build of the working tree: the per-case generator draws its decisions from the bytes libFuzzer proposes, so the
+# edge-coverage feedback steers packet structure, call histories and operation sequences towards code the seeded
+# PRNG workloads reach rarely.  n = total executions over all shards (16 independent libFuzzer processes, seeds
+# derived from VERIF_SEED, no corpus kept between runs).
+def _fz(h, mode, n, wraps=(), **kw):
+    d = dict(h=h, mode=mode, flavour='libfuzzer', n={'quick': 0, 'thorough': n}, defs=['-DVERIF_FUZZ'], tiers=('thorough',))
+    if wraps:
+        d['wraps'] = list(wraps)
+    d.update(kw)
+    return d
+
+CHECKS['C01']['runs'] += [_fz('h_c01.c', 'single', 240000), _fz('h_c01.c', 'ms', 96000)]
+CHECKS['C06']['runs'] += [_fz('h_c06.c', 'random', 480000)]
+CHECKS['C07']['runs'] += [_fz('h_c07.c', 'seq', 1600000), _fz('h_c07.c', 'pad', 200000), _fz('h_c07.c', 'mspad', 200000)]
+CHECKS['C08']['runs'] += [_fz('h_c08.c', 'seq', 3200000)]
+CHECKS['C10']['runs'] += [_fz('h_c10.c', 'dec', 16000)]
+CHECKS['C16']['runs'] += [_fz('h_c16.c', 'gen', 800000), _fz('h_c16.c', 'bytes', 8000000), _fz('h_c16.c', 'repack', 600000)]
+CHECKS['C18']['runs'] += [_fz('h_c18.c', 'hook', 48000, wraps=C18_WRAPS)]
+_FZ_TEXT = ("Thorough tier, coverage-guided: the same modes, generators and oracles are also compiled against a clang "
+            "libFuzzer+ASan+UBSan build of the working tree with the case generator driven by the bytes libFuzzer proposes "
+            "(16 independent processes, bounded by execution count; edges/features reached are in the evidence counters "
+            "libfuzzer_*).")
+for _k in ('C01', 'C06', 'C07', 'C08', 'C10', 'C16', 'C18'):
+    CHECKS[_k]['rule'] = CHECKS[_k]['rule'] + ' ' + _FZ_TEXT
